@@ -259,6 +259,9 @@ type Gctx struct{ db *gorm.DB }
 
 func NewGctx(db *gorm.DB) Gctx { return Gctx{db: db} }
 
+// Prefix applies the handle and the chain of in (no finisher).
+func (g Gctx) Prefix(in Input) *gorm.DB { return g.chain(g.handle(in.TI), in.Chain) }
+
 // Run applies the chain of in to a fresh handle and calls the finisher.
 func (g Gctx) Run(in Input) *gorm.DB {
 	if in.Fin.K == "raw" || in.Fin.K == "exec" {
